@@ -2,7 +2,7 @@
 C07, the evaluation clause on tokens: what the stdlib printers of `Model/Std.lean` produce lies in the readable fragment, so at
 every width / ribbon / indent the printed text reads back (reader of `Spec/Reader.lean`) as the constructor call the printer
 built — callee, positional arguments in order, keyword arguments in order — or, for `timezone.utc` and Enum members, as the
-name itself.  (timedelta prints arithmetic and is covered by `C07.timedelta`.)
+name itself.  (timedelta prints arithmetic and is covered by `C07.timedelta`.)  Pure paths read back as their class applied to one string.
 -/
 import PP.Props.C08b
 import PP.Model.Std
@@ -174,6 +174,11 @@ theorem oneArg_inRd (cls : QualName) (arg : PyVal) (hc : okName cls.2 = true) (h
 theorem defaultdict_inRd (cls : QualName) (factory d : PyVal) (hc : okName cls.2 = true) (hf : inRd factory = true) (hd : inRd d = true) :
     inRd (showDefaultdict cls factory d) = true := by
   simp [showDefaultdict, inRd, inRdL, inRdK, hc, hf, hd]
+
+/-- a pure path is printed as its class applied to the string `as_posix()` gives (one literal, however it is split over lines) -/
+theorem path_denotes (cls : QualName) (posix : PyStr.PS) (hc : okName cls.2 = true) :
+    inRd (.path cls posix) = true ∧ erase (.path cls posix) = .call cls.2 [.str false (PyStr.cps posix)] := by
+  simp [inRd, erase, hc]
 
 /-- **C07.output_reads_back** — for every value of the readable fragment (which, by the lemmas above, holds what the printers for
 date, time, timezone, deque, ChainMap, Counter / OrderedDict / mappingproxy / UUID / exceptions (one-argument calls), defaultdict
